@@ -262,6 +262,23 @@ CLAIMED = {
             'astropy.table / astropy.io.fits for storage; files under '
             '/verif/.scratch removed by the check.',
             'DESIGN.md section 5, C12'),
+    'C14': ('fault_enumeration',
+            'complete enumeration, per generated region list, of format x '
+            'destination state x overwrite x fault (unserialisable region at '
+            'each position, inexpressible members, every invalid option), with '
+            'before/after snapshots of the destination and directory; read-back '
+            'matrix over extensions, renamed and gzip copies',
+            'For each Hypothesis-generated list the whole fault matrix (about '
+            '220-300 cells) is executed on real files under /verif/.scratch. '
+            'A refused or failed write must leave bytes, file type, link target '
+            'and directory listing identical; a successful write must read '
+            'back (format given / extension / content signature / gzip) equal '
+            'to parsing the serialised data. OS-level write faults are not '
+            'injected.',
+            'Fault injection by a region object whose size attribute raises; '
+            'POSIX filesystem semantics of the sandbox; astropy '
+            'get_readable_fileobj for gzip.',
+            'DESIGN.md section 5, C14'),
 }
 
 PENDING_REASON = ('check designed (DESIGN.md section 5) but not yet built and '
